@@ -40,11 +40,13 @@ class Sq:
     def __init__(s):
         s.stmts = {}; s.log = []; s.txn = 0; s.w_auto = 0; s.w_txn = 0; s.failed = None; s.opens = []; s.changes = None; s.rowid = None
         s.tables = {}; s.nextid = {}; s.txn_snapshot = None; s.began = 0; s.committed = 0; s.rolled = 0
+        s.rel = None; s.rel_snapshot = None        # relational back end (models_rel.RelDB)
     def clone(s):
         n = Sq.__new__(Sq); n.__dict__.update(s.__dict__)
         n.stmts = {k: v.clone() for k, v in s.stmts.items()}; n.log = list(s.log); n.opens = list(s.opens)
         n.tables = {t: {k: dict(r) for k, r in rows.items()} for t, rows in s.tables.items()}; n.nextid = dict(s.nextid)
         n.txn_snapshot = s.txn_snapshot
+        n.rel = s.rel.clone() if s.rel is not None else None; n.rel_snapshot = s.rel_snapshot
         return n
 
 def install(eng, cfg=None):
@@ -163,18 +165,20 @@ def install(eng, cfg=None):
                     q.log.append(('step', 'txn', s_.sql, {}, 'error: nested')); return SQLITE_ERROR
                 q.txn = 1; q.w_txn = 0; q.began += 1
                 if exe: q.txn_snapshot = {t: {k: dict(r) for k, r in rows.items()} for t, rows in q.tables.items()}
+                if q.rel is not None: q.rel_snapshot = q.rel.snapshot()
             elif w in ('COMMIT', 'END'):
                 if cfg.get('fail') == 'one' and q.failed is None and cfg.get('fail_commit', True) and eng.choose(st, 'failcommit', 2) == 1:
                     q.failed = ('commit', s_.sql); q.log.append(('step', 'txn', s_.sql, {}, 'FAILED'))
                     return SQLITE_BUSY          # a busy COMMIT leaves the transaction open
                 if not q.txn:
                     q.log.append(('step', 'txn', s_.sql, {}, 'error: no txn')); return SQLITE_ERROR
-                q.txn = 0; q.w_auto += q.w_txn; q.w_txn = 0; q.committed += 1; q.txn_snapshot = None
+                q.txn = 0; q.w_auto += q.w_txn; q.w_txn = 0; q.committed += 1; q.txn_snapshot = None; q.rel_snapshot = None
             elif w == 'ROLLBACK':
                 if not q.txn:
                     q.log.append(('step', 'txn', s_.sql, {}, 'error: no txn')); return SQLITE_ERROR
                 q.txn = 0; q.w_txn = 0; q.rolled += 1
                 if q.txn_snapshot is not None: q.tables = q.txn_snapshot; q.txn_snapshot = None
+                if q.rel is not None and q.rel_snapshot is not None: q.rel.restore(q.rel_snapshot); q.rel_snapshot = None
             else: raise E.Inconclusive('unsupported', 'transaction statement ' + s_.sql)
             q.log.append(('step', 'txn', s_.sql, {}, 'ok'))
             return SQLITE_DONE
@@ -347,89 +351,148 @@ def install(eng, cfg=None):
 
 # ---------------------------------------------------------------------------------------------------------------
 # key/value back end: meaning for the single-table statement shapes used by the 2.x table classes and the 1.x
-# engine_storage.  A table is a map id -> {column: value}; column lists and '?' positions come from the real SQL text.
-RE_INSERT = re.compile(r'^\s*(INSERT|REPLACE|INSERT OR REPLACE)\s+INTO\s+([\w.]+)\s*\(([^)]*)\)\s*VALUES\s*\(([^)]*)\)\s*;?\s*$', re.I | re.S)
-RE_SELECT = re.compile(r'^\s*SELECT\s+(.*?)\s+FROM\s+([\w.]+)\s*(?:WHERE\s+(\w+)\s*=\s*\?)?\s*;?\s*$', re.I | re.S)
-RE_UPDATE = re.compile(r'^\s*UPDATE\s+([\w.]+)\s+SET\s+(.*?)\s*WHERE\s+(\w+)\s*=\s*\?\s*;?\s*$', re.I | re.S)
-RE_DELETE = re.compile(r'^\s*DELETE\s+FROM\s+([\w.]+)\s+WHERE\s+(\w+)\s*=\s*\?\s*;?\s*$', re.I | re.S)
+# engine_storage.  A table is a map primary-key -> {column: value}; column lists, VALUES tuples (also multi-row), SET lists,
+# WHERE conjunctions (col = ? | col IS [NOT] NULL) and the order of the '?' placeholders all come from the real SQL text.
+RE_INSERT = re.compile(r'^\s*(INSERT(?:\s+OR\s+REPLACE)?|REPLACE)\s+INTO\s+([\w.]+)\s*\(([^)]*)\)\s*VALUES\s*(.*?)\s*;?\s*$', re.I | re.S)
+RE_SELECT = re.compile(r'^\s*SELECT\s+(.*?)\s+FROM\s+([\w.]+)(?:\s+WHERE\s+(.*?))?\s*;?\s*$', re.I | re.S)
+RE_UPDATE = re.compile(r'^\s*UPDATE\s+([\w.]+)\s+SET\s+(.*?)\s*WHERE\s+(.*?)\s*;?\s*$', re.I | re.S)      # the real 2.20.3+ statement has '?WHERE' without a space
+RE_DELETE = re.compile(r'^\s*DELETE\s+FROM\s+([\w.]+)(?:\s+WHERE\s+(.*?))?\s*;?\s*$', re.I | re.S)
+
+def parse_where(w):
+    out = []
+    if not w: return out
+    for part in re.split(r'\s+AND\s+', w.strip(), flags=re.I):
+        m = re.match(r'^(\w+)\s*=\s*\?$', part.strip())
+        if m: out.append((m.group(1), 'eq')); continue
+        m = re.match(r'^(\w+)\s+IS\s+NOT\s+NULL$', part.strip(), re.I)
+        if m: out.append((m.group(1), 'notnull')); continue
+        m = re.match(r'^(\w+)\s+IS\s+NULL$', part.strip(), re.I)
+        if m: out.append((m.group(1), 'null')); continue
+        return None
+    return out
 
 def install_kv(eng, cfg=None):
     """cfg extras: kv_strict (unknown statement shape => Inconclusive instead of abstract answers), maintained: {table: [columns]} the
-    database itself maintains (havocked on every write), first_id: {table: int}"""
+    database itself maintains (havocked on every write), pk: {table: (cols...)} primary keys (default ('id',)), first_id: {table: int}"""
     cfg = dict(cfg or {})
-    def key_of(st, v, what):
+    def tname(t): return t.split('.')[-1]
+    def pk_of(table): return tuple(cfg.get('pk', {}).get(tname(table), ('id',)))
+    def conc(st, v, what):
         if v[0] != 'int': raise E.Inconclusive('sqlmodel', 'non-integer key in ' + what)
         k = v[1]
-        if k.__class__ is not int:
-            k = eng.concretize(st, k, 'row id used as key')
+        if k.__class__ is not int: k = eng.concretize(st, k, 'row id used as key')
         return E.to_signed(k, 64)
     def havoc(st, table, row):
         # columns the database maintains itself (triggers): arbitrary value in a sane range [0, 2^32]
-        for c in cfg.get('maintained', {}).get(table.split('.')[-1], []):
+        for c in cfg.get('maintained', {}).get(tname(table), []):
             v = st.new_input('db_maintained_' + c, 64, 'env')
             st.var_ranges = dict(st.var_ranges); st.var_ranges[v.get_id()] = (0, 1 << 32)
             st.pc.append(z3.ULE(v, 1 << 32))
             row[c] = ('int', v)
+    def take(st, s_, sql, n):
+        """the n-th bound parameter (1-based)"""
+        if n not in s_.binds: raise E.Bug('assert', 'SQL parameter %d of "%s" was never bound' % (n, sql[:60]), eng._m(st))
+        return s_.binds[n]
+    def matches(st, row, conds, vals, what):
+        for (col, op), v in zip(conds, vals):
+            cell = row.get(col)
+            if cell is None: raise E.Inconclusive('sqlmodel', 'column %s not present in the modelled row (%s)' % (col, what))
+            if op == 'notnull':
+                if cell[0] == 'null': return False
+            elif op == 'null':
+                if cell[0] != 'null': return False
+            else:
+                if v[0] == 'null' or cell[0] == 'null': return False
+                if v[0] != cell[0]: raise E.Inconclusive('sqlmodel', 'comparison of %s with %s in %s' % (v[0], cell[0], what))
+                if v[0] == 'int':
+                    a, b = v[1], cell[1]
+                    if a.__class__ is int and b.__class__ is int:
+                        if E.mask(a, 64) != E.mask(b, 64): return False
+                    elif not eng.decide(st, E.bv(a, 64) == E.bv(b, 64)): return False
+                else:
+                    if len(v[1]) != len(cell[1]): return False
+                    for x, y in zip(v[1], cell[1]):
+                        if x.__class__ is int and y.__class__ is int:
+                            if x != y: return False
+                        elif not eng.decide(st, E.bv(x, 8) == E.bv(y, 8)): return False
+        return True
     def execute(st, q, s_):
         sql = s_.sql
         m = RE_INSERT.match(sql)
         if m and s_.kind == 'write':
-            table = m.group(2); cols = [c.strip() for c in m.group(3).split(',')]; vals = [v.strip() for v in m.group(4).split(',')]
-            if len(cols) != len(vals): return SQLITE_ERROR
-            row = {}; bi = 0
-            for c, v in zip(cols, vals):
-                if v == '?':
-                    bi += 1
-                    if bi not in s_.binds: raise E.Bug('assert', 'SQL parameter %d of "%s" was never bound' % (bi, sql[:60]), eng._m(st))
-                    row[c] = s_.binds[bi]
-                elif re.match(r'^-?\d+$', v): row[c] = ('int', int(v) & ((1 << 64) - 1))
-                elif v.upper() == 'NULL': row[c] = ('null',)
-                else: raise E.Inconclusive('sqlmodel', 'unsupported VALUES expression %r' % v)
+            table = tname(m.group(2)); cols = [c.strip() for c in m.group(3).split(',')]
+            tuples = re.findall(r'\(([^()]*)\)', m.group(4))
+            replace = 'REPLACE' in m.group(1).upper()
+            t = q.tables.setdefault(table, {}); pk = pk_of(table)
+            bi = 0; n = 0
+            for tup in tuples:
+                vals = [v.strip() for v in tup.split(',')]
+                if len(cols) != len(vals): return SQLITE_ERROR
+                row = {}
+                for c, v in zip(cols, vals):
+                    if v == '?': bi += 1; row[c] = take(st, s_, sql, bi)
+                    elif re.match(r'^-?\d+$', v): row[c] = ('int', int(v) & ((1 << 64) - 1))
+                    elif v.upper() == 'NULL': row[c] = ('null',)
+                    else: raise E.Inconclusive('sqlmodel', 'unsupported VALUES expression %r' % v)
+                if pk == ('id',) and ('id' not in row or row['id'][0] == 'null'):
+                    rid = q.nextid.get(table, cfg.get('first_id', {}).get(table, 1)); q.nextid[table] = rid + 1
+                    row['id'] = ('int', rid & ((1 << 64) - 1))
+                key = tuple(conc(st, row[c], sql[:40]) for c in pk)
+                if key in t and not replace: return SQLITE_CONSTRAINT
+                havoc(st, table, row); t[key] = row; n += 1
+                if pk == ('id',): q.rowid = key[0] & ((1 << 64) - 1)
             if len(s_.binds) != bi: raise E.Bug('assert', '%d parameters bound but the statement has %d placeholders: %s' % (len(s_.binds), bi, sql[:60]), eng._m(st))
-            t = q.tables.setdefault(table, {})
-            if 'id' in row and row['id'][0] == 'int': rid = key_of(st, row['id'], sql[:40])
-            else:
-                rid = q.nextid.get(table, cfg.get('first_id', {}).get(table.split('.')[-1], 1)); q.nextid[table] = rid + 1
-            if rid in t and not m.group(1).upper().endswith('REPLACE'): return SQLITE_CONSTRAINT
-            row['id'] = ('int', rid & ((1 << 64) - 1)); havoc(st, table, row)
-            t[rid] = row; q.rowid = rid & ((1 << 64) - 1); q.changes = 1
+            q.changes = n
             return SQLITE_DONE
         m = RE_UPDATE.match(sql)
         if m and s_.kind == 'write':
-            table, sets, kcol = m.group(1), m.group(2), m.group(3)
-            cols = []
+            table, sets, where = tname(m.group(1)), m.group(2), parse_where(m.group(3))
+            if where is None: raise E.Inconclusive('sqlmodel', 'unsupported WHERE clause: ' + sql[:100])
+            cols = []; consts = []
             for a in sets.split(','):
                 mm = re.match(r'^\s*(\w+)\s*=\s*\?\s*$', a)
+                if mm: cols.append(mm.group(1)); continue
+                mm = re.match(r'^\s*(\w+)\s*=\s*(-?\d+|NULL)\s*$', a, re.I)
                 if not mm: raise E.Inconclusive('sqlmodel', 'unsupported SET expression %r' % a)
-                cols.append(mm.group(1))
-            if len(s_.binds) != len(cols) + 1: raise E.Bug('assert', '%d parameters bound but the statement has %d placeholders: %s' % (len(s_.binds), len(cols) + 1, sql[:60]), eng._m(st))
-            if kcol != 'id': raise E.Inconclusive('sqlmodel', 'UPDATE keyed by ' + kcol)
-            rid = key_of(st, s_.binds[len(cols) + 1], sql[:40])
-            t = q.tables.setdefault(table, {})
-            if rid not in t:
-                q.changes = 0; return SQLITE_DONE
-            row = dict(t[rid])
-            for i, c in enumerate(cols): row[c] = s_.binds[i + 1]
-            havoc(st, table, row); t[rid] = row; q.changes = 1
+                consts.append((mm.group(1), ('null',) if mm.group(2).upper() == 'NULL' else ('int', int(mm.group(2)) & ((1 << 64) - 1))))
+            nq = len(cols) + sum(1 for c, op in where if op == 'eq')
+            if len(s_.binds) != nq: raise E.Bug('assert', '%d parameters bound but the statement has %d placeholders: %s' % (len(s_.binds), nq, sql[:60]), eng._m(st))
+            wv = []; bi = len(cols)
+            for c, op in where:
+                if op == 'eq': bi += 1; wv.append(take(st, s_, sql, bi))
+                else: wv.append(None)
+            t = q.tables.setdefault(table, {}); n = 0
+            for key in list(t):
+                if matches(st, t[key], where, wv, sql[:40]):
+                    row = dict(t[key])
+                    for i, c in enumerate(cols): row[c] = s_.binds[i + 1]
+                    for c, v in consts: row[c] = v
+                    havoc(st, table, row); t[key] = row; n += 1
+            q.changes = n
             return SQLITE_DONE
         m = RE_DELETE.match(sql)
         if m and s_.kind == 'write':
-            table, kcol = m.group(1), m.group(2)
-            if kcol != 'id': raise E.Inconclusive('sqlmodel', 'DELETE keyed by ' + kcol)
-            rid = key_of(st, s_.binds[1], sql[:40])
-            t = q.tables.setdefault(table, {})
-            q.changes = 1 if rid in t else 0
-            t.pop(rid, None)
+            table, where = tname(m.group(1)), parse_where(m.group(2))
+            if where is None: raise E.Inconclusive('sqlmodel', 'unsupported WHERE clause: ' + sql[:100])
+            wv = []; bi = 0
+            for c, op in where:
+                if op == 'eq': bi += 1; wv.append(take(st, s_, sql, bi))
+                else: wv.append(None)
+            t = q.tables.setdefault(table, {}); n = 0
+            for key in list(t):
+                if matches(st, t[key], where, wv, sql[:40]): del t[key]; n += 1
+            q.changes = n
             return SQLITE_DONE
         m = RE_SELECT.match(sql)
-        if m and s_.kind == 'read':
-            cols, table, kcol = [c.strip() for c in m.group(1).split(',')], m.group(2), m.group(3)
+        if m and s_.kind == 'read' and ' JOIN ' not in sql.upper() and '(' not in m.group(1).replace('COUNT(*)', ''):
+            cols, table, where = [c.strip() for c in m.group(1).split(',')], tname(m.group(2)), parse_where(m.group(3))
+            if where is None: raise E.Inconclusive('sqlmodel', 'unsupported WHERE clause: ' + sql[:100])
+            wv = []; bi = 0
+            for c, op in where:
+                if op == 'eq': bi += 1; wv.append(take(st, s_, sql, bi))
+                else: wv.append(None)
             t = q.tables.setdefault(table, {})
-            if kcol is None: keys = sorted(t)
-            else:
-                if kcol != 'id': raise E.Inconclusive('sqlmodel', 'SELECT keyed by ' + kcol)
-                if 1 not in s_.binds: raise E.Bug('assert', 'key parameter never bound: ' + sql[:60], eng._m(st))
-                rid = key_of(st, s_.binds[1], sql[:40]); keys = [rid] if rid in t else []
+            keys = [k for k in sorted(t) if matches(st, t[k], where, wv, sql[:40])]
             if len(cols) == 1 and cols[0].upper().replace(' ', '') == 'COUNT(*)':
                 s_.rows = [{0: ('int', len(keys))}]; return 1
             rows = []
@@ -437,8 +500,8 @@ def install_kv(eng, cfg=None):
                 r = {}
                 for i, c in enumerate(cols):
                     if c not in t[k]:
-                        if c in cfg.get('maintained', {}).get(table.split('.')[-1], []) or c in cfg.get('defaults', {}).get(table.split('.')[-1], {}):
-                            d = cfg.get('defaults', {}).get(table.split('.')[-1], {}).get(c)
+                        if c in cfg.get('maintained', {}).get(table, []) or c in cfg.get('defaults', {}).get(table, {}):
+                            d = cfg.get('defaults', {}).get(table, {}).get(c)
                             t[k][c] = d if d is not None else ('int', st.new_input('db_default_' + c, 64, 'env'))
                         else: raise E.Inconclusive('sqlmodel', 'column %s was never written for this row (%s)' % (c, table))
                     r[i] = t[k][c]
